@@ -1,11 +1,18 @@
 #!/bin/sh
-# MANIFEST.setup_cmd — make hypothesis importable for /venv/bin/python, offline.
+# MANIFEST.setup_cmd — make hypothesis (required) and atheris (optional: thorough-tier fuzzing campaigns) importable
+# for /venv/bin/python, offline, from the wheelhouse.
 set -e
 cd "$(dirname "$0")"
+mkdir -p .deps
 if /venv/bin/python -c "import hypothesis" 2>/dev/null; then
   echo "hypothesis already importable in /venv"
 else
-  mkdir -p .deps
   PIP_NO_INDEX=1 /venv/bin/pip install --no-index --find-links /opt/veriftools/wheels --target .deps hypothesis
 fi
 /venv/bin/python -c "import sys; sys.path.append('.deps'); import hypothesis; print('hypothesis', hypothesis.__version__)"
+if /venv/bin/python -c "import sys; sys.path.append('.deps'); import atheris" 2>/dev/null; then
+  echo "atheris already importable"
+else
+  PIP_NO_INDEX=1 /venv/bin/pip install --no-index --find-links /opt/veriftools/wheels --target .deps atheris >/dev/null 2>&1 \
+    && echo "atheris installed into .deps" || echo "atheris not installable: thorough-tier campaigns will be skipped (no verdict depends on them)"
+fi
